@@ -1,6 +1,6 @@
 (* Optimistic read/write lock model (LockDefs.v) as a line filter.
    stdin, one case per line:
-     <nthreads> | <script_0> | ... | <script_{n-1}> | <schedule>
+     <nthreads>[@<initial version>] | <script_0> | ... | <script_{n-1}> | <schedule>
    script: space-separated blocks  R  W+ W-  T+ T-  U+ U-
      (R = start_read validate end_read; W = start_write then end_write(+)/abort_write(-);
       T = try_start_write, if granted end_write(+)/abort_write(-);
@@ -41,12 +41,15 @@ let () = read_lines (fun l ->
   try
     match split_on '|' l with
     | n :: rest ->
-      let n = int_of_string (String.trim n) in
+      let n = String.trim n in
+      let (n, v0) = match split_on '@' n with
+        | [a; b] -> (int_of_string a, BZ.of_string b)
+        | _ -> (int_of_string n, BZ.zero) in
       if n < 0 || List.length rest <> n + 1 then failwith "arity";
       let scripts = List.map (fun s -> List.map parse_block (words s)) (take n rest) in
       let sched = List.map tid_of_string (words (List.nth rest n)) in
-      let (st, evs) = run scripts sched in
-      let verdict = if mon_ok (cz_of_int 0) scripts sched then "ok" else "bad" in
+      let (st, evs) = run_from (cz_of_z v0) scripts sched in
+      let verdict = if mon_ok (cz_of_z v0) scripts sched then "ok" else "bad" in
       let ev ((t, m), r) = Printf.sprintf " %d:%s:%s" (int_of_nat t) (meth m) (resp r) in
       print_endline ("final " ^ BZ.to_string (z_of_cz st.s_version) ^ " ;"
                      ^ String.concat "" (List.map ev evs) ^ " ; mon " ^ verdict)
